@@ -112,6 +112,10 @@ def pure_unsigned(tree):
         return not leaf_type(tree)[1]
     if tree[0] in ("neg", "abs"):
         return False
+    if tree[0] == ">>":
+        # the sign of a right shift's result is that of the shifted value;
+        # the type of the (non-negative) shift amount is irrelevant
+        return pure_unsigned(tree[1])
     return pure_unsigned(tree[1]) and pure_unsigned(tree[2])
 
 
